@@ -39,6 +39,15 @@ type scriptApp struct {
 	mu        sync.Mutex
 	next      []abci.ValidatorUpdate
 	lastVotes []abci.VoteInfo
+	initVals  []abci.ValidatorUpdate // what InitChain answers (initchain.go)
+	initReqs  []abci.RequestInitChain
+}
+
+func (a *scriptApp) InitChain(req abci.RequestInitChain) abci.ResponseInitChain {
+	a.mu.Lock()
+	defer a.mu.Unlock()
+	a.initReqs = append(a.initReqs, req)
+	return abci.ResponseInitChain{Validators: a.initVals}
 }
 
 func (a *scriptApp) BeginBlock(req abci.RequestBeginBlock) abci.ResponseBeginBlock {
@@ -77,18 +86,39 @@ type history struct {
 	truth  map[int64]ssnap
 	base   int64   // lowest retained height
 	stored []int64 // heights at which a full set was written because the set changed (ascending)
+	family string  // "" = history stage; "initchain" = chains whose first set comes from InitChain (other keys, other stream)
+	extra  map[string]interface{}
 	stats  struct {
-		heights, changes, rejected, prunes, lookups, reconstructed, maxK, crossings, s15, s15prop int64
+		heights, changes, rejected, prunes, lookups, reconstructed, maxK, crossings, s15, s15prop, rounds int64
 	}
 }
 
 func (h *history) witness(extra map[string]interface{}) map[string]interface{} {
-	w := map[string]interface{}{"stream": "history", "case": h.idx, "initial_height": h.init, "genesis_validators": jbatch(h.gen),
+	stream := "history"
+	if h.family != "" {
+		stream = h.family
+	}
+	w := map[string]interface{}{"stream": stream, "case": h.idx, "initial_height": h.init, "genesis_validators": jbatch(h.gen),
 		"events": h.events, "tip": h.state.LastBlockHeight}
+	for k, v := range h.extra {
+		w[k] = v
+	}
 	for k, v := range extra {
 		w[k] = v
 	}
 	return w
+}
+
+// key maps a finding key of the history stage to the one of the family the chain
+// belongs to.  The S15 class keeps its key everywhere: it is one defect.
+func (h *history) key(k string) string {
+	if h.family != "initchain" || k == "loadvalidators-replays-rounds-in-one-call" {
+		return k
+	}
+	if k == "loadvalidators-fails-for-retained-height" || k == "loadvalidators-panics" {
+		return "initchain-loadvalidators-fails"
+	}
+	return "initchain-loadvalidators-differs-from-in-force"
 }
 
 func toABCI(pm map[string]ident, b []ref.RChange) []abci.ValidatorUpdate {
@@ -159,17 +189,17 @@ func (h *history) lookup(q int64, phase string) bool {
 		}
 	}
 	if pan != nil {
-		h.c.Violation("loadvalidators-panics", fmt.Sprintf("LoadValidators(%d) panicked (%s): %v", q, phase, pan), h.witness(map[string]interface{}{"query_height": q, "phase": phase}))
+		h.c.Violation(h.key("loadvalidators-panics"), fmt.Sprintf("LoadValidators(%d) panicked (%s): %v", q, phase, pan), h.witness(map[string]interface{}{"query_height": q, "phase": phase}))
 		return false
 	}
 	if err != nil {
-		h.c.Violation("loadvalidators-fails-for-retained-height", fmt.Sprintf("LoadValidators(%d) failed (%s, retained from %d): %v", q, phase, h.base, err),
+		h.c.Violation(h.key("loadvalidators-fails-for-retained-height"), fmt.Sprintf("LoadValidators(%d) failed (%s, retained from %d): %v", q, phase, h.base, err),
 			h.witness(map[string]interface{}{"query_height": q, "phase": phase, "base": h.base, "expected": jsnap(want)}))
 		return false
 	}
 	g := snap(got)
 	if d := diffMembers(g, want); d != "" {
-		h.c.Violation("loadvalidators-wrong-members", fmt.Sprintf("LoadValidators(%d) (%s) is not the set that was in force: %s", q, phase, d),
+		h.c.Violation(h.key("loadvalidators-wrong-members"), fmt.Sprintf("LoadValidators(%d) (%s) is not the set that was in force: %s", q, phase, d),
 			h.witness(map[string]interface{}{"query_height": q, "phase": phase, "base": h.base, "expected": jsnap(want), "got": jsnap(g)}))
 		return false
 	}
@@ -185,14 +215,14 @@ func (h *history) lookup(q int64, phase string) bool {
 		if !bytes.Equal(g.Proposer, want.Proposer) {
 			h.stats.s15prop++
 		}
-		h.c.Violation(key,
+		h.c.Violation(h.key(key),
 			fmt.Sprintf("LoadValidators(%d) (%s) has the right members but not the priorities / proposer that were in force (last stored set: height %d): %s", q, phase, ls, d),
 			h.witness(map[string]interface{}{"query_height": q, "phase": phase, "base": h.base, "last_stored_height": ls, "stored_set": jsnap(h.truth[ls]),
 				"expected": jsnap(want), "got": jsnap(g), "proposer_differs": !bytes.Equal(g.Proposer, want.Proposer)}))
 		return key == "loadvalidators-replays-rounds-in-one-call" // a known class: go on looking
 	}
 	if err := got.ValidateBasic(); err != nil {
-		h.c.Violation("loadvalidators-invalid-set", fmt.Sprintf("LoadValidators(%d) returned a set that fails ValidateBasic: %v", q, err), h.witness(map[string]interface{}{"query_height": q}))
+		h.c.Violation(h.key("loadvalidators-invalid-set"), fmt.Sprintf("LoadValidators(%d) returned a set that fails ValidateBasic: %v", q, err), h.witness(map[string]interface{}{"query_height": q}))
 		return false
 	}
 	return true
